@@ -411,3 +411,19 @@ def build_link(serial, channels=1, rate=44100, bs0=256, bs1=2048, wseq=(0, 0, 1,
 def full_length(bs0, bs1, wseq):
     bs = [bs0, bs1]
     return sum(bs[wseq[k - 1]] // 4 + bs[wseq[k]] // 4 for k in range(1, len(wseq)))
+
+
+def parse_pages(data):
+    """Page table of an (intact) Ogg byte string: list of dict(offset, len, granule, serial, flags, nseg)."""
+    out = []
+    pos = 0
+    n = len(data)
+    while pos + 27 <= n and data[pos:pos + 4] == b"OggS":
+        nseg = data[pos + 26]
+        lac = data[pos + 27:pos + 27 + nseg]
+        ln = 27 + nseg + sum(lac)
+        gran = struct.unpack("<q", data[pos + 6:pos + 14])[0]
+        serial = struct.unpack("<I", data[pos + 14:pos + 18])[0]
+        out.append({"offset": pos, "len": ln, "granule": gran, "serial": serial, "flags": data[pos + 5], "nseg": nseg})
+        pos += ln
+    return out
